@@ -15,6 +15,10 @@ Long(n) == [i \in 1..n |-> "a"]
 StrExtra == {Unk(TStr, [null |-> "F", prefix |-> Long(300)]), Unk(TStr, [null |-> "U", prefix |-> Long(254) \o <<"eacute", "b", "c">>]),
              Unk(TStr, [null |-> "F", prefix |-> Long(255) \o <<"e", "acute">>]), Unk(TStr, [null |-> "F", prefix |-> Long(256)]),
              Unk(TStr, [null |-> "F", prefix |-> <<"a", "e">>])}
+            \* 4-byte and 3-byte characters lying across the cut at every byte alignment
+            \cup {Unk(TStr, [null |-> "F", prefix |-> Long(250 + j) \o <<"wave", "wave", "wave">> \o Long(8)]) : j \in 0..3}
+            \cup {Unk(TStr, [null |-> "U", prefix |-> Long(251 + j) \o <<"zwj", "zwj", "zwj">> \o Long(8)]) : j \in 0..2}
+            \cup {Unk(TStr, [null |-> "F", prefix |-> Long(253 + j) \o <<"eacute", "eacute", "eacute">>]) : j \in 0..1}
 NumUnk == {Unk(TNum, r) : r \in {[null |-> "F", lo |-> PInf, loInc |-> TRUE], [null |-> "U", lo |-> [lm |-> "i64maxp"], loInc |-> FALSE, hi |-> [lm |-> "u64max"], hiInc |-> TRUE],
                                    [null |-> "F", lo |-> [lm |-> "tenth"], loInc |-> TRUE], [null |-> "U", hi |-> [lm |-> "e30"], hiInc |-> FALSE],
                                    [null |-> "F", lo |-> Qn(2), loInc |-> FALSE, hi |-> Qn(4), hiInc |-> FALSE]}}
@@ -27,7 +31,10 @@ Marked(t) == {WithMk(v, <<"m1">>) : v \in TakeN(Vals(t, W), 2)} \cup {WithMk(Nul
 TS == SetToSeq(MT)
 Mine == SetToSeq({i \in 1..Len(TS) : i % ShardN = ShardI})
 \* values whose own type still contains placeholders (DynamicVal / untyped null members, unknown collections of dynamic)
-DynNested == {SeqV(TTup(<<TDyn>>), <<DynVal>>), SeqV(TTup(<<TDyn, TNum>>), <<Null(TDyn), NumV(4)>>), MapV(TObj([a |-> TDyn]), [a |-> DynVal]),
+DynNested == {SeqV(TTup(<<TDyn, TNum>>), <<DynVal, NumV(4)>>), SeqV(TTup(<<TDyn, TDyn, TStr>>), <<DynVal, DynVal, StrV(<<"a">>)>>),
+              MapV(TObj([a |-> TDyn, b |-> TStr]), [a |-> DynVal, b |-> StrV(<<"a">>)]), MapV(TObj([a |-> TDyn, b |-> TNum]), [a |-> DynVal, b |-> NumV(8)]),
+              SeqV(TList(TDyn), <<DynVal, DynVal>>), SeqV(TTup(<<TTup(<<TDyn, TNum>>), TNum>>), <<SeqV(TTup(<<TDyn, TNum>>), <<DynVal, NumV(4)>>), NumV(8)>>),
+              SeqV(TTup(<<TDyn>>), <<DynVal>>), SeqV(TTup(<<TDyn, TNum>>), <<Null(TDyn), NumV(4)>>), MapV(TObj([a |-> TDyn]), [a |-> DynVal]),
               MapV(TObj([a |-> TDyn, b |-> TStr]), [a |-> Null(TDyn), b |-> StrV(<<"a">>)]), Unk(TList(TDyn), NoRf), Unk(TMap(TDyn), [null |-> "F"]),
               Null(TList(TDyn)), SeqV(TList(TDyn), <<>>), DynVal, Null(TDyn), SeqV(TTup(<<TTup(<<TDyn>>)>>), <<SeqV(TTup(<<TDyn>>), <<DynVal>>)>>)}
 DynLines == {[vals |-> <<v>>, tys |-> <<TDyn, v.ty>>] : v \in DynNested}
